@@ -31,12 +31,13 @@
       int / Fraction factor (g, kg, ml, l, tsp, tbsp, ... or no units at all)
       and not by a float factor (lb, oz to g; cup, pint);
     - [use_of total r]: the abstract use (Spec/LintSpec.v) of reference r;
-    - [run_exact], [tolerance_agrees]: no rounding happened in any
-      [used_proportion += ...] of this run / the final 2% test on the float
-      decided as it would in exact arithmetic. *)
+    - [run_exact]: no rounding happened in any [used_proportion += ...] of
+      this run;
+    - [decisive s]: s is 0 or in [1e-9, 1e6], and is 1 or at least 1e-9 away
+      from 1, and at least 1e-9 away from 0.98 and 1/0.98. *)
 From Coq Require Import List ZArith NArith QArith Bool String Lia.
 From RG Require Import Base.Str Base.Num Model.Recipe Model.Units Model.Lint Spec.LintSpec
-  Spec.Valid Proofs.RecipeScale Proofs.LintProofs Proofs.LintTotal.
+  Spec.Valid Proofs.RecipeScale Proofs.LintProofs Proofs.LintTotal Proofs.LintTolerance.
 Import ListNotations.
 
 (** ** Small recipes used in the examples *)
@@ -162,21 +163,30 @@ Proof. exact unused_set_spec. Qed.
 (** Full statement (kept here):
       exact_uses us -> decisive us -> verdict_model us = verdict_spec us
     where decisive = the exact sum is not within 1e-9 of the 0.98 / 1 / 1.02
-    boundaries.  Proved for runs in which the float accumulator made no
-    rounding error ([run_exact]: e.g. dyadic proportions and quantities) and
-    whose final 2% test decides as in exact arithmetic ([tolerance_agrees]).
-    Missing for the full statement: an error bound for the accumulated
-    roundings (a few units of 2^-53 per use) against the 1e-9 margin.  At the
-    boundary itself the float sum can differ: see
-    [C20_exact_full_use_remainder_refuted]. *)
+    boundaries.  Proved below under one extra hypothesis: the float
+    accumulator made no rounding error in this run ([run_exact]: e.g. dyadic
+    proportions and quantities).  The final 2% test itself is fully analysed:
+    [C20_decisive_tolerance] (three roundings inside math.isclose, relative
+    error 2^-53 each, Proofs/LintTol.v).  Missing for the full statement: a
+    bound for the accumulated rounding errors of the sum (a few units of
+    2^-53 per use) against the 1e-9 margin.  At the boundary itself the float
+    sum can differ: see [C20_exact_full_use_remainder_refuted]. *)
 Theorem C20_verdict_spec_partial : forall sr idx refs us l,
   output_lints sr idx refs = LOk l ->
   Forall2 (fun r u => use_of (total_quantity sr) r = Some u) refs us ->
   (forall name, run_exact name (total_quantity sr) (mkSt false f_zero []) refs) ->
   (forall name st, refs_fold name (total_quantity sr) (mkSt false f_zero []) refs = LOk st ->
-     st_problem st = false -> tolerance_agrees (st_used st)) ->
+     st_problem st = false -> decisive (to_Q (st_used st))) ->
   kinds l = verdict_spec us.
-Proof. exact verdict_spec_exact_runs. Qed.
+Proof. exact verdict_spec_decisive. Qed.
+
+(** [isclose(used, 1.0, rel_tol=0.02)] on the float decides exactly like
+    "|s - 1| <= 2% of max(s, 1)" on its rational value s, whenever s is 1 or
+    at least 1e-9 away from 0.98, 1 and 1/0.98 (and 0 or in [1e-9, 1e6]). *)
+Theorem C20_decisive_tolerance : forall u,
+  is_float u = true -> decisive (to_Q u) ->
+  isclose_with (fst tol_2e2) (snd tol_2e2) u f_one = Some (within_2_percent (to_Q u)).
+Proof. exact decisive_tolerance. Qed.
 
 (** 1 of 4 eggs, then a half, no remainder: a quarter is left -> 'not used up'. *)
 Example C20_verdict_spec_ex :
@@ -186,13 +196,14 @@ Example C20_verdict_spec_ex :
     Forall2 (fun r u => use_of (total_quantity eggs) r = Some u) refs us /\
     (forall name, run_exact name (total_quantity eggs) (mkSt false f_zero []) refs) /\
     (forall name st, refs_fold name (total_quantity eggs) (mkSt false f_zero []) refs = LOk st ->
-       st_problem st = false -> tolerance_agrees (st_used st)) /\
+       st_problem st = false -> decisive (to_Q (st_used st))) /\
     kinds l = [sub_recipe_not_used_up] /\ verdict_spec us = [sub_recipe_not_used_up].
 Proof.
   cbv zeta. eexists. eexists. split; [vm_compute; reflexivity|]. split.
   - constructor; [vm_compute; reflexivity|]. constructor; [vm_compute; reflexivity | constructor].
   - split; [intro name; vm_compute; repeat split; reflexivity|]. split.
-    + intros name st H _. vm_compute in H. inversion H; subst. vm_compute. reflexivity.
+    + intros name st H _. vm_compute in H. inversion H; subst. unfold decisive. cbn [st_used].
+      repeat split; try right; vm_compute; intro K; discriminate K.
     + split; vm_compute; reflexivity.
 Qed.
 
